@@ -82,6 +82,28 @@ def ctx_read(ctx):
                 else:
                     if key != '*':
                         errs.append('per-item read does not range over the entries')
+        # the value read
+        vv = drop_lv(inline_option_maps(facts, val))
+        ent = ('field', ('param', 1), r['entries'])
+        if name == 'read':
+            ok_v = is_call(vv, 'collect') and vv[2] and whole_iteration_over(vv[2][0], 1, (r['entries'],)) and iter_source(vv[2][0])[1] == 'keys' and not iter_source(vv[2][0])[2]
+            if not ok_v:
+                errs.append('val is %s, expected every key of entries' % fmt(vv, 4))
+        elif name in ('len', 'is_empty'):
+            if not (is_call(vv, name) and vv[2] and param_path(vv[2][0]) == (1, (r['entries'],))):
+                errs.append('val is %s, expected entries.%s()' % (fmt(vv, 4), name))
+        elif name in PER_ELEM_ITER:
+            e = elem_value_of(vv)
+            want_part = {'keys': ('key', ()), 'values': ('value', ('val',))}.get(name)
+            if adt == ORSWOT:
+                want_part = ('key', ())
+            if want_part is not None:
+                if not (e and param_path(e[0]) == (1, (r['entries'],)) and e[2] == want_part[0] and tuple(e[3]) == want_part[1]):
+                    errs.append('val of the item is %s, expected the entry %s' % (fmt(vv, 4), 'key' if want_part[0] == 'key' else 'value'))
+        elif name == 'get':
+            e = elem_value_of(vv)
+            if not (e and param_path(e[0]) == (1, (r['entries'],)) and versionless(e[1]) == ('param', 2) and tuple(e[3]) == ('val',)):
+                errs.append('val is %s, expected the nested value stored under the key' % fmt(vv, 4))
         ctx.check(not errs, inst, where, 'add_clock = replica clock, rm_clock = %s' % ('replica clock' if name in WHOLE else 'element witness clock'),
                   errs[0] if errs else '', details={'ReadCtx': fmt(agg, 6)}, props=props)
 
